@@ -975,7 +975,21 @@ func (c *Ctx) fmtResult(a []Value, fmtIdx int) *StrVal {
 func registerLibModels() {
 	m := models
 	m["fmt.Sprintf"] = func(c *Ctx, fn *ssa.Function, a []Value) Value { return c.fmtResult(a, 0) }
-	m["fmt.Sprint"] = func(c *Ctx, fn *ssa.Function, a []Value) Value { return c.str("<fmt.Sprint>") }
+	m["fmt.Sprint"] = func(c *Ctx, fn *ssa.Function, a []Value) Value {
+		// exact when every operand is concrete (goValue), a placeholder otherwise
+		if args, ok := a[0].(SliceVal); ok {
+			var gargs []interface{}
+			for i := 0; i < args.Len; i++ {
+				gv, ok := c.goValue(args.get(i))
+				if !ok {
+					return c.str("<fmt.Sprint>")
+				}
+				gargs = append(gargs, gv)
+			}
+			return c.str(fmt.Sprint(gargs...))
+		}
+		return c.str("<fmt.Sprint>")
+	}
 	m["fmt.Sprintln"] = func(c *Ctx, fn *ssa.Function, a []Value) Value { return c.str("<fmt.Sprintln>\n") }
 	m["fmt.Errorf"] = func(c *Ctx, fn *ssa.Function, a []Value) Value { return c.mkError(c.fmtResult(a, 0)) }
 	zeroErr := func(c *Ctx, fn *ssa.Function, a []Value) Value { return TupleVal{c.goInt(0), Iface{}} }
